@@ -215,7 +215,7 @@ PROPS["C19"] = dict(
     trusted=STORE_TRUST,
     assumptions=["concurrent writers to different datasets funnel through core.Dataset under its write lock (lock facts under C05); DeleteDataset does not hold the dataset's lock"],
     level_text="Proof: the items counter of a dataset equals the length of a duplicate-free enumeration of exactly the ids with at least one version there, in every state reached "
-               "through the write path (items_eq_distinct, items_step — part of the refinement invariant); for every history of create/delete/rename/re-create a name is listed iff "
+               "through the write path (items_eq_distinct, items_step — part of the refinement invariant; items_reachable: after every history of batches and multi-dataset transactions from the empty store); for every history of create/delete/rename/re-create a name is listed iff "
                "its meta entity is live, deleted or renamed-away names have deleted meta entities, ids are fresh and unshared (catalogue, fresh_ids). PARTIAL: core.Dataset's own counter "
                "is never maintained (known finding D22).",
     level_note="Trusted: Lean kernel, factgen, badger. The meta entities themselves (name, namespaces) are compared by the correspondence.",
